@@ -503,6 +503,15 @@ func setupFeeds(e *Env, o core.RunOpts) error {
 		e.Shared["gov"] = gov
 		e.Actors = append(e.Actors, gov, &RestakeParamChurn{Rate: 10 + e.Ch.Intn("cfg.restake.churnrate", 30)})
 	}
+	if o.Prop == "C15" && e.Ch.Bool("cfg.oracle.penaltychurn", 350) {
+		gov := getGov(e)
+		if gov == nil {
+			gov = &GovActor{}
+			e.Shared["gov"] = gov
+			e.Actors = append(e.Actors, gov)
+		}
+		e.Actors = append(e.Actors, &OraclePenaltyChurn{Rate: 30 + e.Ch.Intn("cfg.oracle.penaltychurn.rate", 60)})
+	}
 	e.Monitors = append(e.Monitors, &C06{}, &C07{}, &C15{}, &C16{}, NewC01(), &C09{})
 	e.MaxSteps = e.Ch.Range("cfg.steps", 40, 110)
 	if o.Thorough {
